@@ -57,7 +57,9 @@ def injections(doc, ver):
                 # a type that exists only in the other spec version is an unregistered (custom) type here
                 only21 = sorted(set(M.get("2.1").sdo_types) - set(M.get("2.0").sdo_types))
                 for t in (only21[0], only21[len(only21) // 2], only21[-1]):
-                    out.append({"path": list(p), "op": "set", "kind": "ref-to-unregistered-type:other-version-type", "value": "%s--%s" % (t, UUID)})
+                    # "prime21": the same type referred to by 2.1 content first, where it IS a registered type (nothing learnt there may
+                    # be remembered for 2.0)
+                    out.append({"path": list(p), "op": "set", "kind": "ref-to-unregistered-type:other-version-type", "value": "%s--%s" % (t, UUID), "prime21": t})
         elif k == "observable-container" and isinstance(val, dict):
             out.append({"path": list(p) + ["99"], "op": "add", "kind": "unregistered-observable-member", "value": {"type": "x-unregistered-sco", "x_a": 1}})
             for key, o in val.items():
@@ -250,6 +252,10 @@ def check_case(case):
     allow = case["allow_custom"]
     payload = C.apply(doc, edit) if edit else doc
     fails = []
+    if edit and edit.get("prime21"):
+        core.guarded(stix2.parse, {"type": "relationship", "spec_version": "2.1", "id": "relationship--" + UUID, "created": "2020-01-01T00:00:00.000Z",
+                                   "modified": "2020-01-01T00:00:00.000Z", "relationship_type": "related-to",
+                                   "source_ref": "%s--%s" % (edit["prime21"], UUID), "target_ref": "identity--" + UUID}, version="2.1")
     if entry == "constructor-prebuilt":
         pre = prebuild(payload, edit, ver) if edit else None
         if pre is None:
